@@ -412,6 +412,10 @@ func (g *Gen) tmplPop(wb []string, decon bool) (VPop, string) {
 	var p VPop
 	var pt, ot string
 	form := g.R.Intn(6)
+	// a pattern that binds ?t: exercise the anchor-binding forms often (one instantiation per row, each with its anchor)
+	if has(wb, "?t") && g.R.Intn(2) == 0 {
+		form = 5
+	}
 	// a predicate binding / anchor binding of the right kind exists only in some patterns: otherwise mostly a constant
 	if (form == 3 || form == 4) && !has(wb, "?p") && g.R.Intn(6) != 0 {
 		form = g.R.Intn(3)
@@ -672,12 +676,13 @@ func ipred(id string) VPred { return VPred{ID: id} }
 // PoolPrefix builds the store every pool sequence starts from; Pool is the 12-statement pool.
 func PoolPrefix(b *Blanks) []VStmt {
 	ua, ub, tc := constNodes[0], constNodes[1], constNodes[2]
-	a0 := anchors[0]
+	a0, a1 := anchors[0], anchors[1]
 	return []VStmt{
 		{Kind: "create", Gs: []string{"?a", "?b"}, Text: "CREATE GRAPH ?a, ?b;"},
 		mkData(b, "insert", []string{"?a"}, []VTriple{
 			{S: ua, P: ipred("p"), O: *nobj(ub)}, {S: ub, P: ipred("p"), O: *lit(`"1"^^type:int64`)},
-			{S: ub, P: ipred("q"), O: *nobj(tc)}, {S: ua, P: VPred{ID: "r", A: &a0}, O: *nobj(ub)}}),
+			{S: ub, P: ipred("q"), O: *nobj(tc)}, {S: ua, P: VPred{ID: "r", A: &a0}, O: *nobj(ub)},
+			{S: ub, P: VPred{ID: "r", A: &a1}, O: *nobj(tc)}}),
 	}
 }
 
